@@ -51,6 +51,7 @@ class Output(IOutput, Loggable):
         self._mem_location = None
         self._total_mem = 0
         self._mem_counter = 0
+        self._mem_units = None
 
     @property
     def name(self):
@@ -295,6 +296,8 @@ class Output(IOutput, Loggable):
                 self._total_mem / 1048576,
             )
             self._mem_counter += 1
+            # the file holds the magnitude only
+            self._mem_units = data.units
             if np.ma.isMaskedArray(data.magnitude):
                 # np.save can't write masked arrays
                 with open(fn, "wb") as file:
@@ -313,7 +316,7 @@ class Output(IOutput, Loggable):
         if isinstance(where, str):
             self.logger.profile("reading data from file %s", where)
             data = np.load(where, allow_pickle=True)
-            return tools.UNITS.Quantity(data, self.info.units)
+            return tools.UNITS.Quantity(data, self._mem_units)
 
         return where
 
